@@ -35,6 +35,7 @@ def run(ctx):
     ctx.each(flowalg.share_rule, ctx, repo, "R01j")
     ctx.each(flowalg.accumulator_rule, ctx, repo, "R01i")
     ctx.each(flowalg.link_registration_rule, ctx, repo, "R01k")
+    ctx.each(flowalg.step_wiring_rule, ctx, repo, "R01l")
 
 
 # ---------------------------------------------------------------------------------------------- R01a
